@@ -172,6 +172,9 @@ def check(repo: Repo, rep, tier):
     # an approved create is applied completely: the data behind every written reference is stored and persisted
     persist_remove(repo, rep)
     content_addr(repo, rep)
+    from .C02 import file_loops_total
+
+    file_loops_total(repo, rep)
 
 
 WRITER_TABLE = {
